@@ -385,7 +385,7 @@ func runHostileConns(c HostileConnCase) (*hcStats, error) {
 		cl := NewClient(w.Scheme, w.Host, protoPtr(proto))
 		got := make(chan struct{}, 1)
 		var perr error
-		err := within(8*time.Second, "the well-behaved client ("+when+")", func() {
+		err := within(25*time.Second, "the well-behaved client ("+when+")", func() {
 			perr = func() error {
 				if err := cl.Start(); err != nil {
 					return err
